@@ -184,7 +184,7 @@ def run_policy(ctx, rng, pid):
 
 
 def witnesses(ctx):
-    """F7 and F8 on the implementation"""
+    """F7, F20 and F8 on the implementation"""
     sim = davsim.Sim(ctx)
     try:
         verif_rights.TABLE.clear()
@@ -203,6 +203,28 @@ def witnesses(ctx):
                           finding="F7")
     finally:
         sim.close()
+    # F20: with a lower-case letter on the parent path, a collection the policy hides answers 403, a missing one 404
+    res = {}
+    for exists in (True, False):
+        sim = davsim.Sim(ctx)
+        try:
+            verif_rights.TABLE.clear()
+            verif_rights.DEFAULT[0] = "RrWw"
+            sim.app.request("MKCOL", "/u/", login="u:pw")
+            if exists:
+                sim.app.request("MKCALENDAR", "/u/hidden/", login="u:pw")
+            verif_rights.DEFAULT[0] = ""
+            verif_rights.TABLE[("u", "u")] = "Rr"
+            res[exists], _, _ = sim.app.request("PROPFIND", "/u/hidden/", davsim.PROPFIND_BODY, login="u:pw", HTTP_DEPTH="0")
+        finally:
+            verif_rights.DEFAULT[0] = "RrWw"
+            verif_rights.TABLE.clear()
+            sim.close()
+    ctx.case("witness:F20", sample={"hidden exists": res[True], "does not exist": res[False]}, key="F20", nontrivial=True)
+    if res[True] != res[False]:
+        ctx.violation("the answer depends on data inside a subtree where the policy gives the user nothing (status %s vs %s): PROPFIND on a "
+                      "collection without any permission, parent has 'Rr'" % (res[True], res[False]), {"results": {str(k): v for k, v in res.items()}},
+                      finding="F20" if {res[True], res[False]} == {403, 404} else None)
     sim = davsim.Sim(ctx, permit_delete=True)
     try:
         res = {}
